@@ -503,8 +503,11 @@ def file_header(gen_file):
     return imps + HEADER
 
 
-def generate(write=True):
-    """-> status dict {frag: {status, reason, file}}; writes Gen/<File>.lean"""
+def generate(write=True, own=None):
+    """-> status dict {frag: {status, reason, file}}; writes Gen/<File>.lean.
+    `own`: the fragments the calling check depends on.  Every other fragment is emitted with its baseline text, so that
+    a change in code the property does not depend on can neither break this check's build nor its tie (the checks that
+    list that fragment see it)."""
     os.makedirs(GEN_DIR, exist_ok=True)
     status = {}
     files = {}
@@ -519,6 +522,12 @@ def generate(write=True):
         except Exception as e:  # translator bug or exotic source: same handling
             txt, st = None, {"status": "untranslatable", "reason": f"{type(e).__name__}: {e}"}
         st["file"] = gen_file
+        if own is not None and name not in own:
+            base = baseline_text(gen_file, name)
+            if base is not None:
+                if txt != base:
+                    st = {"status": "ok", "reason": "", "file": gen_file, "foreign": "baseline text used (source differs)"}
+                txt = base
         if txt is None:
             txt = baseline_text(gen_file, name)
             st["fallback"] = "baseline" if txt is not None else "none"
